@@ -494,14 +494,45 @@ def r17_pushpath(repo, sink):
         sink.check(bool(ok), "R17", f"push:{name}", f,
                    ok="push_data behaves as specified for this case",
                    bad=f"push_data, case '{name}': {detail}")
-    # same refusal in CallbackOutput.get_data (semantic run is R40); here: it remembers its last answer
+    # same refusal in CallbackOutput.get_data: two successive answers of the provider, observed in an abstract run
     g = repo.method("CallbackOutput", "get_data")
-    stores = [n for n in fn_walk(g.node) if isinstance(n, ast.Assign) and any(self_attr(t) == "last_data" for t in n.targets)]
-    has = [n for n in fn_walk(g.node) if isinstance(n, ast.Call) and call_name(n) == "may_share_memory"]
-    if stores or has:
-        sink.check(bool(stores) and bool(has), "R17", "refusal:CallbackOutput", g,
+    why = None
+    try:
+        for shares in (False, True):
+            it = _CbRec(repo)
+            it.shares_script = [shares]
+            q1, q2 = Sym("q1"), Sym("q2")
+            it.order.name(q1, "q1", 1)
+            it.order.name(q2, "q2", 2)
+            me = Obj(cls=repo.cls("CallbackOutput"), label="CallbackOutput")
+            cb = Obj(label="stub")
+            me.fields.update(callback=Sym("stubcall", Ref(cb), "provider"), _output_info=Obj(label="info"), _out_infos_exchanged=1,
+                             _connected_inputs={Obj(label="t"): None}, last_data=None, logger=Logger(label="logger"), name="o",
+                             _targets=[Obj(label="t")])
+            tgt = Obj(label="target")
+            r1 = it.run(g, [q1, tgt], self_obj=me)
+            n1 = len(it.share_checks)
+            try:
+                r2 = it.run(g, [q2, tgt], self_obj=me)
+                second = "answered"
+            except Raised as r:
+                second = r.name
+            checks = it.share_checks[n1:]
+            if n1 > 0 and any("provided" in repr(c[0]) and "provided" in repr(c[1]) for c in it.share_checks[:n1]):
+                why = why or "the very first answer is compared with itself"
+            elif len(checks) != 1 or not ("1" in repr(checks[0]) and "2" in repr(checks[0])):
+                why = why or f"the second answer is compared with {checks!r}; it must be compared once with the previous answer"
+            elif shares and second != "FinamDataError":
+                why = why or f"an answer sharing memory with the previous one is {second}, expected FinamDataError"
+            elif not shares and second != "answered":
+                why = why or f"a fresh second answer ends in {second}"
+    except (Undecided, AnalysisError) as exc:
+        sink.unknown("R17", "refusal:CallbackOutput", g, f"outside vocabulary: {exc}")
+        why = "skip"
+    if why != "skip":
+        sink.check(why is None, "R17", "refusal:CallbackOutput", g,
                    ok="pull-based output refuses answers sharing memory with the previous one and remembers the answer",
-                   bad="CallbackOutput.get_data compares with / remembers the previous answer only half-way")
+                   bad=f"CallbackOutput.get_data: {why}")
 
 
 # =========================================================================== R18
@@ -697,6 +728,8 @@ def r40_cbtime(repo, sink):
             def call_hook(self, fv, args, kwargs, node, mod):
                 if isinstance(fv, Closure) and getattr(fv.func, "name", "") == "strip_time":
                     return Sym("st", args[0])
+                if isinstance(fv, Closure) and getattr(fv.func, "name", "") == "try_connect":
+                    return None
                 if isinstance(fv, Closure) and getattr(fv.func, "name", "") == "get_magnitude":
                     return Sym("magnitude", args[0])
                 if isinstance(fv, Closure) and getattr(fv.func, "name", "") in ("quantify", "to_units"):
@@ -740,8 +773,20 @@ def r40_cbtime(repo, sink):
         from ..absbase import seed_from_init
         seed_from_init(FinamInterp(repo), wc, me, {"inputs": list(names), "grid": Sym("grid")})
         stale = {nm: Sym("stale-connect-phase-data", nm) for nm in inputs}
-        me.fields.update(_input_names=list(names), _grid=Sym("grid"), _in_data=stale, _out_data=None, _last_update=None, _units=Sym("units_of_first_input"),
-                         status=Sym("enum", "ComponentStatus", "VALIDATED"), inputs=inputs, logger=Logger(label="logger"))
+        # the connect phase, run by the real code against a connector that has pulled everything: whatever attribute
+        # keeps the initial data is filled by WeightedSum itself
+        conn_stub = Obj(label="stub")
+        conn_stub.fields.update(all_data_pulled=True, in_data=stale, in_infos={nm: None for nm in inputs}, infos_pushed={"WeightedSum": True})
+        me.fields.update(inputs=inputs, logger=Logger(label="logger"), connector=conn_stub, _connector=conn_stub, name="ws")
+        prep = _WS(repo)
+        prep.store_attr(me, "status", Sym("enum", "ComponentStatus", "CONNECTING"), None)
+        cn = repo.resolve(wc, "_connect", "method")
+        if cn is not None:
+            try:
+                prep.run(cn, [Sym("q0")], self_obj=me)
+            except (Raised, Undecided, AnalysisError) as exc:
+                raise AnalysisError(f"WeightedSum._connect outside vocabulary: {exc}") from exc
+        prep.store_attr(me, "status", Sym("enum", "ComponentStatus", "VALIDATED"), None)
         it = _WS(repo)
         q, q2 = Sym("q"), Sym("q2")
         it.order.name(q, "q", 1)
@@ -792,7 +837,9 @@ def r40_cbtime(repo, sink):
                    ok="provider pulls every input for the requested time and returns sum(value x own weight), memoised per time", bad=why or "")
         repo._ws_pull_targets = list(it.pull_targets)
         me2 = Obj(cls=wc, label="WeightedSum")
-        me2.fields.update(_in_data=None)
+        seed_from_init(FinamInterp(repo), wc, me2, {"inputs": list(names), "grid": Sym("grid")})
+        me2.fields.update(inputs=inputs, logger=Logger(label="logger"))
+        _WS(repo).store_attr(me2, "status", Sym("enum", "ComponentStatus", "CONNECTING"), None)
         sink.check(_WS(repo).run(ws, [None, q], self_obj=me2) is None, "R40", "weighted-sum-not-ready", ws,
                    ok="before the initial data is there the provider answers None (no data yet)", bad="provider does not answer None before its inputs were pulled")
 
@@ -854,20 +901,28 @@ class _CbRec(_Rec):
     def __init__(self, repo, none_result=False):
         super().__init__(repo)
         self.none_result = none_result
+        self.share_checks = []
+        self.shares_script = None
 
     def call_hook(self, fv, args, kwargs, node, mod):
         if isinstance(fv, Sym) and fv.op == "stubcall" and fv.args[1] == "provider":
             self.calls.append(("stub", "provider", tuple(args), {}))
-            return None if self.none_result else Sym("provided")
+            self.n_provided = getattr(self, "n_provided", 0) + 1
+            return None if self.none_result else Sym("provided", self.n_provided)
         if isinstance(fv, Closure) and getattr(fv.func, "name", "") == "prepare":
-            return (Sym("prepared"), None) if kwargs.get("report_conversion") else Sym("prepared")
+            r = Sym("prepared", args[0])
+            return (r, None) if kwargs.get("report_conversion") else r
         if isinstance(fv, Closure) and getattr(fv.func, "name", "") == "get_magnitude":
             return Sym("mag", args[0])
         return super().call_hook(fv, args, kwargs, node, mod)
 
     def ext_call(self, name, args, kwargs, node):
-        if name == "np.may_share_memory":
-            return False
+        if name.endswith("may_share_memory") or name.endswith("shares_memory"):
+            if not hasattr(self, "share_checks"):
+                self.share_checks = []
+            self.share_checks.append((args[0], args[1]))
+            script = getattr(self, "shares_script", None)
+            return script.pop(0) if script else False
         return super().ext_call(name, args, kwargs, node)
 
 
